@@ -2,13 +2,19 @@ package tt
 
 import (
 	"fmt"
+	"go/printer"
+	"os"
+	"sync"
+
 	"go/ast"
 	"go/token"
 	"go/types"
+	"golang.org/x/tools/go/packages"
 	"regexp"
 
 	"rscheck/cfgq"
 	"rscheck/core"
+	"rscheck/pat"
 )
 
 // View is a function body in which the calls of same-package helpers that stand
@@ -88,7 +94,16 @@ type inliner struct {
 	nlabel int
 	v      *View
 	calls  map[*types.Func]int
-	pseudo map[string]*pctx // label of an expanded helper (source normalisation) -> how its exits are rewritten
+	// closures: a function literal bound once to a local, or handed to a helper's parameter, and
+	// called exactly once is inlined like a helper (its free variables are the variables of the
+	// scopes it is written in, which the view keeps)
+	root    *ast.BlockStmt
+	bound   map[types.Object]ast.Expr // parameter of an inlined helper -> argument
+	scope   map[types.Object]ast.Node // parameter of an inlined helper -> the helper's body
+	lits    map[*ast.FuncLit]*core.Fn // literals wrapped as helpers
+	litDone map[*ast.FuncLit]bool     // literals inlined at their only call
+	pkg     *packages.Package
+	pseudo  map[string]*pctx // label of an expanded helper (source normalisation) -> how its exits are rewritten
 }
 
 // pctx describes one helper expansion made by the loader's source normalisation
@@ -128,7 +143,13 @@ func ViewOfLit(p *core.Program, info *types.Info, lit *ast.FuncLit, tag string, 
 
 func viewOfBody(p *core.Program, info *types.Info, body *ast.BlockStmt, opaque func(*types.Func) bool) *View {
 	v := &View{Exits: map[*ast.BranchStmt]*ast.ReturnStmt{}, ExitVals: map[*ast.BranchStmt][]ast.Expr{}, helperOf: map[*ast.ReturnStmt]*ast.BlockStmt{}, Named: map[types.Object]bool{}}
-	in := &inliner{p: p, info: info, opaque: opaque, stack: map[*ast.BlockStmt]bool{body: true}, used: map[*ast.BlockStmt]bool{}, v: v, pseudo: map[string]*pctx{}}
+	in := &inliner{p: p, info: info, opaque: opaque, stack: map[*ast.BlockStmt]bool{body: true}, used: map[*ast.BlockStmt]bool{}, v: v, pseudo: map[string]*pctx{},
+		root: body, bound: map[types.Object]ast.Expr{}, scope: map[types.Object]ast.Node{}, lits: map[*ast.FuncLit]*core.Fn{}, litDone: map[*ast.FuncLit]bool{}}
+	for _, pk := range p.Pkgs {
+		if pk.TypesInfo == info {
+			in.pkg = pk
+		}
+	}
 	// a helper that is called from several places of the body stays a call everywhere (its nodes
 	// would otherwise occur twice in one tree)
 	in.calls = map[*types.Func]int{}
@@ -141,6 +162,39 @@ func viewOfBody(p *core.Program, info *types.Info, body *ast.BlockStmt, opaque f
 		return true
 	})
 	v.Body = in.block(body, 3, nil)
+	in.dropBindings(v.Body)
+	// loops over fixed tables are the sequence of their rows
+	un := &unroller{p: p, info: info, root: v.Body, tables: map[types.Object][]ast.Expr{}, known: map[types.Object]bool{}}
+	un.onCopy = func(old, new ast.Node, tr map[ast.Node]ast.Node) {
+		switch o := old.(type) {
+		case *ast.BranchStmt:
+			if r, ok := v.Exits[o]; ok {
+				v.Exits[new.(*ast.BranchStmt)] = r
+			}
+			if vals, ok := v.ExitVals[o]; ok {
+				var nv []ast.Expr
+				for _, e := range vals {
+					if t, ok := tr[e].(ast.Expr); ok {
+						e = t
+					}
+					nv = append(nv, e)
+				}
+				v.ExitVals[new.(*ast.BranchStmt)] = nv
+			}
+		case *ast.ReturnStmt:
+			if b, ok := v.helperOf[o]; ok {
+				v.helperOf[new.(*ast.ReturnStmt)] = b
+			}
+		}
+	}
+	v.Body = derefPointers(info, v.Body, un.onCopy)
+	v.Body = splitRecords(info, v.Body, un.onCopy)
+	un.root = v.Body
+	v.Body = un.block(v.Body)
+	if os.Getenv("TT_DUMP") != "" {
+		printer.Fprint(os.Stderr, p.Fset, v.Body)
+		fmt.Fprintln(os.Stderr)
+	}
 	v.G = cfgq.New(p.Fset, info, v.Body, cfgq.NR(p))
 	v.G.Prog = p
 	return v
@@ -160,7 +214,10 @@ func (in *inliner) helper(call *ast.CallExpr, depth int) *core.Fn {
 		return nil
 	}
 	f := core.CalleeFunc(in.info, call)
-	if f == nil || in.opaque != nil && in.opaque(f) || in.calls[f] > 1 {
+	if f == nil {
+		return in.closure(call)
+	}
+	if in.opaque != nil && in.opaque(f) || in.calls[f] > 1 {
 		return nil
 	}
 	h := in.p.FnOf(f)
@@ -176,11 +233,15 @@ func (in *inliner) helper(call *ast.CallExpr, depth int) *core.Fn {
 			return nil // unnamed parameters
 		}
 	}
-	// a helper that contains defer keeps its own exit discipline: not inlined
+	// a helper that contains defer keeps its own exit discipline: not inlined, unless all it defers
+	// is the release of a resource (conn.Close(), mu.Unlock(), ...), which decides nothing
 	hasDefer := false
 	core.Inspect(h.Decl.Body, func(n ast.Node) bool {
-		if _, ok := n.(*ast.DeferStmt); ok {
-			hasDefer = true
+		if d, ok := n.(*ast.DeferStmt); ok {
+			sel, isSel := ast.Unparen(d.Call.Fun).(*ast.SelectorExpr)
+			if !isSel || len(d.Call.Args) != 0 || !releaseNames[sel.Sel.Name] {
+				hasDefer = true
+			}
 		}
 		return !hasDefer
 	})
@@ -188,6 +249,141 @@ func (in *inliner) helper(call *ast.CallExpr, depth int) *core.Fn {
 		return nil
 	}
 	return h
+}
+
+var releaseNames = map[string]bool{"Close": true, "Unlock": true, "RUnlock": true, "Done": true, "Stop": true}
+
+// closure resolves a call of a function value to the literal it denotes: the callee is a local
+// bound once to a literal, or a parameter of an inlined helper whose argument is a literal, and
+// this call is the only use of that variable.
+func (in *inliner) closure(call *ast.CallExpr) *core.Fn {
+	if in.pkg == nil {
+		return nil
+	}
+	// a function literal invoked in place
+	if lit, ok := ast.Unparen(call.Fun).(*ast.FuncLit); ok {
+		sig, ok := in.info.TypeOf(lit).(*types.Signature)
+		if !ok || sig.Variadic() || sig.Params().Len() != len(call.Args) || in.stack[lit.Body] || in.used[lit.Body] {
+			return nil
+		}
+		for _, fl := range lit.Type.Params.List {
+			if len(fl.Names) == 0 {
+				return nil
+			}
+		}
+		hasDefer := false
+		core.Inspect(lit.Body, func(n ast.Node) bool {
+			if _, ok := n.(*ast.DeferStmt); ok {
+				hasDefer = true
+			}
+			return !hasDefer
+		})
+		if hasDefer {
+			return nil
+		}
+		if h := in.lits[lit]; h != nil {
+			return h
+		}
+		h := &core.Fn{
+			Obj:  types.NewFunc(lit.Pos(), in.pkg.Types, "func", sig),
+			Decl: &ast.FuncDecl{Name: &ast.Ident{NamePos: lit.Pos(), Name: "func"}, Type: lit.Type, Body: lit.Body},
+			Pkg:  in.pkg,
+		}
+		in.lits[lit] = h
+		return h
+	}
+	id, ok := ast.Unparen(call.Fun).(*ast.Ident)
+	if !ok {
+		return nil
+	}
+	o, ok := core.ObjOf(in.info, id).(*types.Var)
+	if !ok || o.IsField() {
+		return nil
+	}
+	sig, ok := o.Type().Underlying().(*types.Signature)
+	if !ok || sig.Variadic() || sig.Params().Len() != len(call.Args) {
+		return nil
+	}
+	var lit *ast.FuncLit
+	var where ast.Node
+	if a, isParam := in.bound[o]; isParam {
+		lit, _ = ast.Unparen(a).(*ast.FuncLit)
+		where = in.scope[o]
+	} else if d, ok := SingleDef(in.info, in.root, id); ok && d.Rhs != nil && d.Index == -1 && d.Range == nil {
+		lit, _ = ast.Unparen(d.Rhs).(*ast.FuncLit)
+		where = in.root
+	}
+	if lit == nil || where == nil || in.stack[lit.Body] || in.used[lit.Body] {
+		return nil
+	}
+	uses := 0
+	ast.Inspect(where, func(n ast.Node) bool {
+		if u, ok := n.(*ast.Ident); ok && in.info.Uses[u] == types.Object(o) {
+			uses++
+		}
+		return true
+	})
+	if uses != 1 {
+		return nil
+	}
+	for _, fl := range lit.Type.Params.List {
+		if len(fl.Names) == 0 {
+			return nil
+		}
+	}
+	bad := false
+	core.Inspect(lit.Body, func(n ast.Node) bool {
+		if _, ok := n.(*ast.DeferStmt); ok {
+			bad = true
+		}
+		return !bad
+	})
+	if bad {
+		return nil
+	}
+	if h := in.lits[lit]; h != nil {
+		return h
+	}
+	h := &core.Fn{
+		Obj:  types.NewFunc(lit.Pos(), in.pkg.Types, id.Name, sig),
+		Decl: &ast.FuncDecl{Name: &ast.Ident{NamePos: lit.Pos(), Name: id.Name}, Type: lit.Type, Body: lit.Body},
+		Pkg:  in.pkg,
+	}
+	in.lits[lit] = h
+	return h
+}
+
+// dropBindings removes `f := func..` / the parameter binding of a literal that was inlined at its
+// only call: the literal is no longer a nested function of the view.
+func (in *inliner) dropBindings(root ast.Node) {
+	if len(in.litDone) == 0 {
+		return
+	}
+	keep := func(list []ast.Stmt) []ast.Stmt {
+		var out []ast.Stmt
+		for _, s := range list {
+			if as, ok := s.(*ast.AssignStmt); ok && len(as.Lhs) == 1 && len(as.Rhs) == 1 {
+				if lit, ok := ast.Unparen(as.Rhs[0]).(*ast.FuncLit); ok && in.litDone[lit] {
+					continue
+				}
+			}
+			out = append(out, s)
+		}
+		return out
+	}
+	ast.Inspect(root, func(n ast.Node) bool {
+		switch b := n.(type) {
+		case *ast.FuncLit:
+			return false
+		case *ast.BlockStmt:
+			b.List = keep(b.List)
+		case *ast.CaseClause:
+			b.Body = keep(b.Body)
+		case *ast.CommClause:
+			b.Body = keep(b.Body)
+		}
+		return true
+	})
 }
 
 func (in *inliner) prelude(h *core.Fn, call *ast.CallExpr) []ast.Stmt {
@@ -202,11 +398,23 @@ func (in *inliner) prelude(h *core.Fn, call *ast.CallExpr) []ast.Stmt {
 		for _, n := range fl.Names {
 			if n.Name != "_" {
 				out = append(out, &ast.AssignStmt{Lhs: []ast.Expr{n}, TokPos: call.Pos(), Tok: token.DEFINE, Rhs: []ast.Expr{call.Args[i]}})
+				if o := in.info.Defs[n]; o != nil {
+					in.bound[o], in.scope[o] = call.Args[i], h.Decl.Body
+					noteBinding(o, call.Args[i])
+				}
 			}
 			i++
 		}
 	}
 	return out
+}
+
+func (in *inliner) noteLit(h *core.Fn) {
+	for lit, w := range in.lits {
+		if w == h {
+			in.litDone[lit] = true
+		}
+	}
 }
 
 func (in *inliner) noteNamed(h *core.Fn) {
@@ -235,9 +443,11 @@ func (in *inliner) expand(h *core.Fn, call *ast.CallExpr, lhs []ast.Expr, tok to
 	in.stack[h.Decl.Body], in.used[h.Decl.Body] = true, true
 	in.v.Inlined = append(in.v.Inlined, h)
 	in.noteNamed(h)
+	in.noteLit(h)
+	pre := in.prelude(h, call)
 	body := in.block(h.Decl.Body, depth-1, ex)
 	delete(in.stack, h.Decl.Body)
-	list := append(in.prelude(h, call), body.List...)
+	list := append(pre, body.List...)
 	list = append(list, &ast.LabeledStmt{Label: label, Colon: call.End(), Stmt: &ast.EmptyStmt{Semicolon: call.End(), Implicit: true}})
 	return &ast.BlockStmt{Lbrace: call.Pos(), List: list, Rbrace: call.End()}
 }
@@ -254,9 +464,11 @@ func (in *inliner) tail(h *core.Fn, call *ast.CallExpr, depth int, outer *exit) 
 	} else if nr := namedResults(h); len(nr) > 0 {
 		ex = &exit{named: nr, body: h.Decl.Body} // bare returns become explicit
 	}
+	in.noteLit(h)
+	pre := in.prelude(h, call)
 	body := in.block(h.Decl.Body, depth-1, ex)
 	delete(in.stack, h.Decl.Body)
-	return &ast.BlockStmt{Lbrace: call.Pos(), List: append(in.prelude(h, call), body.List...), Rbrace: call.End()}
+	return &ast.BlockStmt{Lbrace: call.Pos(), List: append(pre, body.List...), Rbrace: call.End()}
 }
 
 func (in *inliner) block(b *ast.BlockStmt, depth int, ex *exit) *ast.BlockStmt {
@@ -509,4 +721,43 @@ func (in *inliner) stmt(s ast.Stmt, depth int, ex *exit) []ast.Stmt {
 		return []ast.Stmt{&ast.LabeledStmt{Label: v.Label, Colon: v.Colon, Stmt: one(v.Stmt)}}
 	}
 	return []ast.Stmt{s}
+}
+
+// The parameter bindings made by the views (`p := a` in front of an inlined body) are not part of
+// the shared single-assignment index (pat.DefOf), which is built from the files. DefOf answers
+// for both: the index first, then the binding of a parameter that every view binds to the same
+// argument expression.
+var (
+	bindMu    sync.Mutex
+	bindings  = map[types.Object]ast.Expr{}
+	ambiguous = map[types.Object]bool{}
+)
+
+func noteBinding(o types.Object, a ast.Expr) {
+	bindMu.Lock()
+	defer bindMu.Unlock()
+	if ambiguous[o] {
+		return
+	}
+	if old, ok := bindings[o]; ok && old != a {
+		ambiguous[o] = true
+		delete(bindings, o)
+		return
+	}
+	bindings[o] = a
+}
+
+// DefOf returns the defining expression of a transparent local (pat.DefOf) or the argument a view
+// bound to the parameter e of an inlined helper or function literal.
+func DefOf(info *types.Info, e ast.Expr) ast.Expr {
+	if d := pat.DefOf(info, e); d != nil {
+		return d
+	}
+	id, ok := e.(*ast.Ident)
+	if !ok || info == nil {
+		return nil
+	}
+	bindMu.Lock()
+	defer bindMu.Unlock()
+	return bindings[info.Uses[id]]
 }
